@@ -543,8 +543,8 @@ class InProtocolBase(ProtocolMixin):
                 return date(int(match.group('year')),
                             int(match.group('month')), int(match.group('day')))
             else:
-                # the message from ValueError is quite nice already
-                raise ValidationError(e.message, "%s")
+                raise ValidationError(string,
+                                         "%%r: %s" % repr(e).replace("%", "%%"))
 
     def duration_from_unicode(self, cls, string):
         match = _duration_re.match(string)
